@@ -821,21 +821,24 @@ func GenerateSelectResultRowData(r *mysql.Result) error {
 	return nil
 }
 
-// copy from server.generateMapKey()
+// generateMapKey encodes the key columns of GROUP BY / DISTINCT / UNION merging into one string.
+// The encoding is injective: NULL has its own marker (it is not the string "NULL") and every
+// value is length-prefixed (a value containing the former separator "+" cannot run into its neighbour).
 func generateMapKey(groupColumns []interface{}) (string, error) {
-	bk := make([]byte, 0, 8)
-	separatorBuf, err := formatValue("+")
-	if err != nil {
-		return "", err
-	}
-
+	bk := make([]byte, 0, 16)
 	for _, v := range groupColumns {
+		if v == nil {
+			bk = append(bk, 0)
+			continue
+		}
 		b, err := formatValue(v)
 		if err != nil {
 			return "", err
 		}
+		bk = append(bk, 1)
+		bk = strconv.AppendInt(bk, int64(len(b)), 10)
+		bk = append(bk, ':')
 		bk = append(bk, b...)
-		bk = append(bk, separatorBuf...)
 	}
 
 	return string(bk), nil
